@@ -31,7 +31,7 @@ CLASS_LAW = {
 }
 FLOORS = {"density-form": 3, "gradient-is-derivative": 3, "sampler-density-agreement": 3,
           "bounds-are-support": 3, "support-guard": 2, "routing": 7, "posterior-sum": 4,
-          "guess-order": 1, "combine-coverage": 1}
+          "guess-order": 1, "combine-coverage": 1, "received-arrays": 4}
 
 T = "theta[self.variables]"
 
@@ -222,6 +222,7 @@ def run(prog, tier):
                               what=f"Posterior.{mname} = (+/-) likelihood + prior", tier="S"))
     c, fn = prog.method("Posterior", "generate_initial_guesses")
     obs.append(_guess_order(c, fn))
+    obs.extend(_received_arrays_not_mutated(prog))
 
     meta = {
         "explanation": "Normal-form equality of each prior's in-support value with the log-density of the numpy law "
@@ -431,6 +432,76 @@ def _combine_coverage(prog, jp, init):
     return struct_ob("combine-coverage", f"{jp.module.name}.JointPrior.__init__", ok,
                      f"prior classes {sorted(have - listed)} are not in the merge list and would be dropped from the joint prior",
                      REL, init.lineno, slots={"listed": sorted(listed), "classes_with_combine": sorted(have)})
+
+
+def returns_own_state(fn):
+    """True if some return value of fn is (an alias of) an attribute of self - the caller then shares that object."""
+    if not fn.args.args:
+        return None
+    sn = fn.args.args[0].arg
+    alias = {}
+    for st in ast.walk(fn):
+        if isinstance(st, ast.Assign) and len(st.targets) == 1 and isinstance(st.targets[0], ast.Name) \
+                and isinstance(st.value, ast.Attribute) and isinstance(st.value.value, ast.Name) and st.value.value.id == sn:
+            alias[st.targets[0].id] = st.value.attr
+    for r in ast.walk(fn):
+        if isinstance(r, ast.Return) and r.value is not None:
+            v = r.value
+            if isinstance(v, ast.Attribute) and isinstance(v.value, ast.Name) and v.value.id == sn:
+                return v.attr
+            if isinstance(v, ast.Name) and v.id in alias:
+                return alias[v.id]
+    return None
+
+
+def _received_arrays_not_mutated(prog):
+    """Posterior / JointPrior may not update in place an array they received from a component's gradient / sample,
+    because a component may hand out its own stored array (e.g. a pre-allocated zero gradient)."""
+    out = []
+    # which array-returning component methods hand out their own state?
+    sharing = {}
+    for base in ("BasePrior", "Likelihood"):
+        if not prog.has_cls(base):
+            continue
+        for ci in prog.subclasses(base):
+            for m in ("gradient", "sample", "cost_gradient"):
+                fn = ci.methods.get(m)
+                if fn is not None:
+                    a = returns_own_state(fn)
+                    if a:
+                        sharing.setdefault(m, []).append(f"{ci.name}.{m} returns self.{a}")
+    for cname in ("Posterior", "JointPrior"):
+        ci = prog.cls(cname)
+        for mname, fn in ci.methods.items():
+            received = {}      # local name -> method it came from
+            for st in ast.walk(fn):
+                if isinstance(st, ast.Assign) and len(st.targets) == 1 and isinstance(st.targets[0], ast.Name) \
+                        and isinstance(st.value, ast.Call) and isinstance(st.value.func, ast.Attribute) \
+                        and st.value.func.attr in ("gradient", "sample", "cost_gradient"):
+                    received[st.targets[0].id] = st.value.func.attr
+            hits = []
+            for st in ast.walk(fn):
+                tgt = None
+                if isinstance(st, ast.AugAssign):
+                    tgt = st.target
+                elif isinstance(st, ast.Assign) and isinstance(st.targets[0], ast.Subscript):
+                    tgt = st.targets[0]
+                if tgt is None:
+                    continue
+                b = tgt
+                while isinstance(b, ast.Subscript):
+                    b = b.value
+                if isinstance(b, ast.Name) and b.id in received and sharing.get(received[b.id]):
+                    hits.append((st.lineno, U(st), received[b.id]))
+            if mname in ("gradient", "cost_gradient", "sample") or hits:
+                msg = ""
+                if hits:
+                    l, t, m = hits[0]
+                    msg = (f"`{t}` (line {l}) updates in place the array received from a component's {m}(); {sharing[m][0]} (its own "
+                           f"stored array), so that component's {m} is corrupted for every later call")
+                out.append(struct_ob("received-arrays", qual(ci, fn), not hits, msg, ci.module.relpath,
+                                     hits[0][0] if hits else fn.lineno, slots={"components_sharing_state": sharing}))
+    return out
 
 
 def _guess_order(c, fn):
